@@ -324,3 +324,40 @@ func (b *Box) PruneEmptyDirs() {
 		}
 	}
 }
+
+// Clone copies the whole case directory (working tree, .goit, HOME) into a new Box.
+func (b *Box) Clone() *Box {
+	root, err := os.MkdirTemp(ScratchBase(), "case")
+	if err != nil {
+		panic(err)
+	}
+	nb := &Box{Root: root, Work: filepath.Join(root, "w"), Home: filepath.Join(root, "home"), Bin: b.Bin, TZMin: b.TZMin, Extra: b.Extra}
+	err = filepath.Walk(b.Root, func(p string, info os.FileInfo, err error) error {
+		if err != nil {
+			return err
+		}
+		rel, _ := filepath.Rel(b.Root, p)
+		dst := filepath.Join(root, rel)
+		if info.IsDir() {
+			return os.MkdirAll(dst, 0o755)
+		}
+		data, err := os.ReadFile(p)
+		if err != nil {
+			return err
+		}
+		return os.WriteFile(dst, data, info.Mode().Perm())
+	})
+	if err != nil {
+		panic(err)
+	}
+	return nb
+}
+
+// WriteGoitFile writes a file inside .goit (used to craft inputs).
+func (b *Box) WriteGoitFile(rel string, data []byte) error {
+	p := filepath.Join(b.GoitDir(), filepath.FromSlash(rel))
+	if err := os.MkdirAll(filepath.Dir(p), 0o755); err != nil {
+		return err
+	}
+	return os.WriteFile(p, data, 0o644)
+}
